@@ -146,6 +146,71 @@ func c12Scenario(n int, vectors []string) *engine.SScenario {
 	}}
 }
 
+
+// c12ReconnectScenario: a write of peer A waits for approval (nobody answers); the connection of A is removed and
+// established again, and the new connection's first write carries the message counter of the waiting one (a peer
+// counts its messages from the start again). The timeout of the old write may fire at any point of this — before,
+// while, and after the connection is removed: the new write still gets exactly one outcome (its own timeout, on the
+// new connection).
+func c12ReconnectScenario(n int) *engine.SScenario {
+	return &engine.SScenario{Name: fmt.Sprintf("callbacks=%d a pending write, its connection removed and re-established, a write with the same counter", n), TimersFree: true, Heavy: false,
+		Run: func(cfg rt.Config) rt.Outcome {
+			var viol []string
+			var dig string
+			res := rt.Execute(cfg, func() {
+				w := stdWorld(false, "A")
+				a := w.Peers["A"]
+				f := w.L.FeatureByAddress(srvAddr("L1lc", true))
+				f.SetData(fnLimit, limitList(1, 1, 2))
+				a.Deliver(a.BindCall(cliAddr("A", "e1f1", true), srvAddr("L1lc", true), model.FeatureTypeTypeLoadControl))
+				for i := 0; i < n; i++ {
+					_ = f.AddWriteApprovalCallback(func(msg *api.Message) {})
+				}
+				a.SetCounter(99)
+				a.Deliver(a.Datagram(cliAddr("A", "e1f1", true), srvAddr("L1lc", true), model.CmdClassifierTypeWrite, true, nil, model.CmdType{LoadControlLimitListData: limitList(2, 1, 2)}))
+				rt.WaitIdle()
+				oldW := a.W
+				oldAfter := -1
+				var newConn string
+				m := w.Mark()
+				rt.BeginExplore()
+				rt.Go(func() {
+					w.L.RemoveRemoteDeviceConnection("A")
+					c12setInt(&oldAfter, oldW.Len())
+					a2 := w.ConnectAndAnnounce("A", "dA", peerEnts(false))
+					c12setStr(&newConn, a2.W.Name)
+					a2.Deliver(a2.BindCall(cliAddr("A", "e1f1", true), srvAddr("L1lc", true), model.FeatureTypeTypeLoadControl))
+					a2.SetCounter(99)
+					a2.Deliver(a2.Datagram(cliAddr("A", "e1f1", true), srvAddr("L1lc", true), model.CmdClassifierTypeWrite, true, nil, model.CmdType{LoadControlLimitListData: limitList(3, 1, 2)}))
+				})
+				rt.WaitIdle()
+				rt.Advance(time.Minute)
+				rt.WaitIdle()
+				rt.JoinFinished()
+				// (the timeout result of the OLD write may be in flight when the removal starts — its timer passed its
+				// decision before — and then reaches the old connection's writer late: left open here, C10 owns that clause)
+				ok, bad := countResults(w.Since(m), newConn, 100)
+				if ok != 0 || bad != 1 {
+					viol = append(viol, fmt.Sprintf("the write of the new connection did not get exactly its one outcome (the timeout error) | success=%d error=%d", ok, bad))
+				}
+				if got := world.JSON(f.DataCopy(fnLimit)); got != world.JSON(limitList(1, 1, 2)) {
+					viol = append(viol, "stored data changed although no write was approved | "+got)
+				}
+				if rt.PendingTimers() != 0 {
+					viol = append(viol, "an approval timer is still armed after every write had its outcome")
+				}
+				dig = fmt.Sprint(ok, bad, oldW.Len()-oldAfter)
+			})
+			return rt.Outcome{Res: res, Violations: append(viol, panicsAndDeadlocks(res)...), Digest: dig}
+		}}
+}
+
+//go:norace
+func c12setInt(p *int, v int) { *p = v }
+
+//go:norace
+func c12setStr(p *string, v string) { *p = v }
+
 //go:norace
 func c12count[K comparable](m map[K]int, k K) { m[k]++ }
 
@@ -191,6 +256,7 @@ func c12Scenarios(thorough bool) []*engine.SScenario {
 	for _, p := range pairs {
 		scs = append(scs, c12Scenario(len(p[0]), p))
 	}
+	scs = append(scs, c12ReconnectScenario(1), c12ReconnectScenario(2))
 	return scs
 }
 
